@@ -206,7 +206,7 @@ func NewWorld(seed int64, gorder []string, cfgs map[string]Cfg, asgs map[string]
 	w.K.PrependReactor("*", "nodes", w.nodeReactor)
 	for _, g := range gorder {
 		a := asgs[g]
-		w.AWS.Asgs[AsgName(g)] = &SimASG{Group: g, Name: AsgName(g), Min: int64(a.Min), Max: int64(a.Max), Desired: int64(a.Desired), Subnets: "subnet-a,subnet-b"}
+		w.AWS.Asgs[AsgName(g)] = &SimASG{Group: g, Name: AsgName(g), Min: int64(a.Min), Max: int64(a.Max), Desired: int64(a.Desired), Subnets: "subnet-a,subnet-b", Linger: a.Linger}
 		w.Accepted[g] = Never
 	}
 	if err := w.newController(); err != nil {
@@ -506,8 +506,12 @@ func Build(seed int64, s *State) (*World, error) {
 		a := w.AWS.Asgs[AsgName(g)]
 		a.Min, a.Max, a.Desired = int64(gs.Asg.Min), int64(gs.Asg.Max), int64(gs.Asg.Desired)
 		a.Instances = nil
+		term := map[string]bool{}
+		for _, id := range gs.Asg.Terminating {
+			term[id] = true
+		}
 		for _, id := range gs.Asg.Members {
-			a.Instances = append(a.Instances, SimInst{ID: id, Launch: w.TimeOf(w.Now - 1)})
+			a.Instances = append(a.Instances, SimInst{ID: id, Launch: w.TimeOf(w.Now - 1), Terminating: term[id]})
 		}
 		c := gs.Ctl
 		w.C.VerifSetState(g, controller.VerifGroupState{IsLocked: c.IsLocked, LockSet: c.LockAt > Never, LockAge: time.Duration(w.Now-c.LockAt) * Tick,
@@ -580,12 +584,16 @@ func (w *World) Project() *State {
 		}
 		sort.Slice(gs.Pods, func(i, j int) bool { return fmt.Sprint(gs.Pods[i]) < fmt.Sprint(gs.Pods[j]) })
 		a := w.AWS.Asgs[AsgName(g)]
-		gs.Asg = Asg{Min: int(a.Min), Max: int(a.Max), Desired: int(a.Desired), Members: []string{}}
+		gs.Asg = Asg{Min: int(a.Min), Max: int(a.Max), Desired: int(a.Desired), Members: []string{}, Terminating: []string{}, Linger: a.Linger}
 		for _, i := range a.Instances {
 			gs.Asg.Members = append(gs.Asg.Members, i.ID)
+			if i.Terminating {
+				gs.Asg.Terminating = append(gs.Asg.Terminating, i.ID)
+			}
 		}
 		sort.Strings(gs.Asg.Members)
-		gs.Pc = Asg{Members: []string{}}
+		sort.Strings(gs.Asg.Terminating)
+		gs.Pc = Asg{Members: []string{}, Terminating: []string{}, Linger: a.Linger}
 		if ng, ok := w.Provider.GetNodeGroup(AsgName(g)); ok {
 			gs.Pc.Min, gs.Pc.Max, gs.Pc.Desired = int(ng.MinSize()), int(ng.MaxSize()), int(ng.TargetSize())
 			for _, p := range ng.Nodes() {
@@ -888,7 +896,15 @@ func (w *World) NodeGone(id string) bool {
 // CloudLaunch adds a new instance to the group's ASG if it is below its desired capacity.
 func (w *World) CloudLaunch(g, id string) bool {
 	a := w.AWS.Asgs[AsgName(g)]
-	if a == nil || int64(len(a.Instances)) >= a.Desired {
+	live := int64(0)
+	if a != nil {
+		for _, i := range a.Instances {
+			if !i.Terminating {
+				live++
+			}
+		}
+	}
+	if a == nil || live >= a.Desired {
 		return false
 	}
 	for _, i := range a.Instances {
@@ -924,6 +940,21 @@ func (w *World) GoLive() {
 			w.OnScanStart(w.ScanNo)
 		}
 	}
+}
+
+// InstanceGone: the cloud finally drops a terminating instance from the ASG's list.
+func (w *World) InstanceGone(g, id string) bool {
+	a := w.AWS.Asgs[AsgName(g)]
+	if a == nil {
+		return false
+	}
+	for i, inst := range a.Instances {
+		if inst.ID == id && inst.Terminating {
+			a.Instances = append(a.Instances[:i:i], a.Instances[i+1:]...)
+			return true
+		}
+	}
+	return false
 }
 
 // LoseInstance removes an instance from its ASG behind escalator's back (its Node object stays).
